@@ -1410,14 +1410,21 @@ func TestCheck(t *testing.T) {
 			}
 		}(w)
 	}
+	if os.Getenv("VERIF_C15_PART") == "sched" { // development aid: only the schedule part
+		units = nil
+		r.NotExhaustive("VERIF_C15_PART=sched: the sequential enumeration was skipped")
+	}
 	// longest jobs first: the capacity family (SQLite before memory), the probes, then the units by weight
 	for _, cu := range capUnits() {
+		if units == nil {
+			break
+		}
 		cu := cu
 		ch <- func(w int) { runCapacity(w, cu, deadline, c) }
 	}
 	for _, backend := range []string{"sqlite", "memory"} {
 		backend := backend
-		ch <- func(w int) { runProbes(w, backend, c) }
+		ch <- func(w int) { runProbes(w, backend, c) } // (also in a schedule-only run: the evidence needs evaluations)
 	}
 	planned := 0
 	for _, u := range units {
